@@ -742,6 +742,10 @@ type scene struct {
 	order     [][]int  // the order in which the option sets were converted, per pass
 	in        *osm.OSM // pristine deep copy of what Convert was given (taken before anything ran)
 	areas     []bool   // Way.Polygon() of every way, evaluated on another copy
+	nodeAI    []bool   // Tags.AnyInteresting() of every node / way / relation (on that copy)
+	wayAI     []bool
+	relAI     []bool
+	relPoly   []bool // Relation.Polygon()
 	unchanged bool
 	runs      []run
 	problems  problems
@@ -801,10 +805,11 @@ func (s *scene) encode(class string) *wire.Case {
 		c.Str(x)
 	}
 	c.Len(len(o.Nodes))
-	for _, n := range o.Nodes {
+	for ni, n := range o.Nodes {
 		c.Int(int64(n.ID)).Int(int64(n.Lon)).Int(int64(n.Lat))
 		e.tags(tagsDesc(n.Tags))
 		e.meta(n.Timestamp, n.Version, n.ChangesetID, n.User, n.UserID)
+		c.Bool(s.nodeAI[ni])
 	}
 	c.Len(len(o.Ways))
 	for wi, w := range o.Ways {
@@ -812,10 +817,10 @@ func (s *scene) encode(class string) *wire.Case {
 		e.wnodes(w.Nodes)
 		e.tags(tagsDesc(w.Tags))
 		e.meta(w.Timestamp, w.Version, w.ChangesetID, w.User, w.UserID)
-		c.Bool(s.areas[wi])
+		c.Bool(s.areas[wi]).Bool(s.wayAI[wi])
 	}
 	c.Len(len(o.Relations))
-	for _, r := range o.Relations {
+	for ri, r := range o.Relations {
 		c.Int(int64(r.ID))
 		c.Len(len(r.Members))
 		for _, m := range r.Members {
@@ -826,8 +831,10 @@ func (s *scene) encode(class string) *wire.Case {
 		}
 		e.tags(tagsDesc(r.Tags))
 		e.meta(r.Timestamp, r.Version, r.ChangesetID, r.User, r.UserID)
+		c.Bool(s.relPoly[ri]).Bool(s.relAI[ri])
 	}
 	c.Bool(s.unchanged)
+	c.Bool(inKnownClass(o)) // judged in Coq against Spec.adopts (code 3)
 	c.Len(len(s.runs))
 	for _, r := range s.runs {
 		c.Int(int64(r.Bits)).Bool(r.Same)
@@ -883,8 +890,17 @@ func runSceneEmb(model *osm.OSM, bitsList []int, emb *embedding) *scene {
 		s.in = cloneOSM(model)
 		s.emb = fmt.Sprintf("lon = %v + x*%v, lat = %v + y*%v (0 stays 0)", emb.x0, emb.scale, emb.y0, emb.scale)
 	}
-	for _, w := range cloneOSM(o).Ways {
+	side := cloneOSM(o)
+	for _, w := range side.Ways {
 		s.areas = append(s.areas, w.Polygon())
+		s.wayAI = append(s.wayAI, w.Tags.AnyInteresting())
+	}
+	for _, n := range side.Nodes {
+		s.nodeAI = append(s.nodeAI, n.Tags.AnyInteresting())
+	}
+	for _, r := range side.Relations {
+		s.relAI = append(s.relAI, r.Tags.AnyInteresting())
+		s.relPoly = append(s.relPoly, r.Polygon())
 	}
 	beforeText := canon(before)
 	// Every option set is converted twice, in two passes over the option sets in two different
